@@ -558,3 +558,33 @@ Definition check_blcases := check_cases blcase_agree blcase_spec.
 Record glcase := { gl_eps : list idp_endpoint; gl_binding : string; gl_out : string }.
 Definition glcase_agree (c : glcase) : bool := seqb (binding_location (gl_binding c) (gl_eps c)) (gl_out c).
 Definition check_glcases := check_cases glcase_agree glcase_agree.
+
+(* ---------- results stay what they were: sequences of productions ---------- *)
+(* retained case: a sequence of message productions (any kinds, any SPs, any
+   serialisation entry point) whose results are all kept and decoded only after
+   the LAST production.  rt_stream: the random bytes drawn during a sequential
+   sequence ("" for productions from concurrent goroutines, whose order is not
+   fixed); rt_expected: per message (ID, relay state, Destination attribute,
+   target of URL / form) as recorded when it was produced; rt_decoded: the same
+   four read from the retained result afterwards. *)
+Definition rt_item := (string * string * string * string)%type.
+Fixpoint rt_items_eqb (a b : list rt_item) : bool :=
+  match a, b with
+  | [], [] => true
+  | (i, r, d, t) :: a', (i', r', d', t') :: b' =>
+      seqb i i' && seqb r r' && seqb d d' && seqb t t' && rt_items_eqb a' b'
+  | _, _ => false
+  end.
+Record rtcase := { rt_stream : string; rt_expected : list rt_item; rt_decoded : list rt_item }.
+Definition rt_ids (l : list rt_item) : list string := map (fun x : rt_item => fst (fst (fst x))) l.
+Definition rtcase_agree (c : rtcase) : bool :=
+  rt_items_eqb (rt_expected c) (rt_decoded c)
+  && (if nonempty (rt_stream c)
+      then match make_ids (List.length (rt_expected c)) (rt_stream c) with
+           | Ok (ids, rest) => strs_eqb ids (rt_ids (rt_decoded c)) && negb (nonempty rest)
+           | _ => false
+           end
+      else true).
+(* every retained result still decodes to its own ID, relay state and destination *)
+Definition rtcase_spec (c : rtcase) : bool := rt_items_eqb (rt_expected c) (rt_decoded c).
+Definition check_rtcases := check_cases rtcase_agree rtcase_spec.
